@@ -423,7 +423,8 @@ SPEC = PropSpec(
                  "interpreter's recursion limit for cycles); an identical duplicate container may be tolerated if the "
                  "graph stays consistent. R17.1 structural: every registry insert is dominated by a membership test. "
                  "R17.3: inheritor lists have one writer; mutable dataclass defaults are factories."
-                 ' Graph variants include unconditional inheritance and a forward-referenced diamond (a container nested directly and through another nested container).'),
+                 ' Graph variants include unconditional inheritance and a forward-referenced diamond (a container nested directly and through another nested container).'
+                 ' After a load that was rejected half-way, documents with deleted definitions are still rejected and the valid document still loads consistently; the same through load_xml and a path whose file changed; an unused parameter must still name a defined type.'),
     rule_doc="R17.g per element order; R17.c per corruption; R17.1 per registry insert; R17.3 per writer/default",
     assumptions=["lxml ElementPath semantics as modelled", "cycles are rejected through Python's recursion limit (RecursionError)"],
     mutants=mutants,
